@@ -1066,6 +1066,14 @@ class Minimizer(
                 f'{self._max_repetitions:d}. The status dictionary is '
                 f'"{str(status)}".')
 
+        # A fit value of NaN is neither below nor above its bounds. It must not
+        # be returned as a converged result.
+        if np.any(np.isnan(xmin)):
+            raise ValueError(
+                'The minimizer reported convergence, but the fit values '
+                f'"{str(xmin)}" contain NaN! The status dictionary is '
+                f'"{str(status)}".')
+
         # Check if any fit value is outside its bounds due to rounding errors by
         # the minimizer. If so, set those fit values to their respective bound
         # value and re-evaluate the function with the corrected fit values.
